@@ -803,6 +803,18 @@ func (f *File) UpdateSidx(addIfNotExists, nonZeroEPT bool) error {
 		sidx = &SidxBox{}
 	}
 	fillSidx(sidx, refTrak, segDatas, nonZeroEPT)
+	if exists {
+		// Further top-level sidx boxes are written after this one. They lie between it and the first segment
+		after := false
+		for _, sx := range f.Sidxs {
+			if after {
+				sidx.FirstOffset += sx.Size()
+			}
+			if sx == sidx {
+				after = true
+			}
+		}
+	}
 	if !exists {
 		err = insertSidx(f, segDatas, sidx)
 		if err != nil {
